@@ -127,6 +127,29 @@ Proof.
   destruct a, b. unfold cm_eqb. cbn. rewrite !andb_true_iff, !N.eqb_eq. intros [[[? ?] ?] ?]. subst. reflexivity.
 Qed.
 
+Definition cm_src (m : cm) : nat := N.to_nat (c_src m).
+Lemma cm_src_set i m : cm_src (cm_set_index i m) = cm_src m. Proof. reflexivity. Qed.
+Lemma cm_eqb_refl a : cm_eqb a a = true.
+Proof. unfold cm_eqb. rewrite !N.eqb_refl. reflexivity. Qed.
+Lemma tag_src_src s l : forall p, Forall (fun x => cm_src x = N.to_nat s) (tag_src s p l).
+Proof. induction l as [|[r i] t IH]; intros p; cbn [tag_src]; constructor; [reflexivity|apply IH]. Qed.
+Lemma tag_its_tagged raw : forall s, its_tagged cm_src (N.to_nat s) (tag_its s raw).
+Proof.
+  induction raw as [|it r IH]; intros s; cbn [tag_its its_tagged]; [exact I|].
+  split; [apply tag_src_src|]. replace (S (N.to_nat s)) with (N.to_nat (s + 1)) by lia. apply IH.
+Qed.
+(* for the families of the correspondence check (any raw sources, tagged by tag_its) the acceptor decides exactly
+   "is a run": no missed deviation (sound), no false alarm (complete) *)
+Theorem C09_acceptor_exact_on_generated : forall start raw out,
+  accepts c_rt cm_set_index cm_eqb start (new_heap (tag_its 0 raw)) out = true <->
+  Run c_rt cm_set_index start (new_heap (tag_its 0 raw)) out.
+Proof.
+  intros start raw out. split.
+  - apply (C09_acceptor_sound c_rt cm_set_index cm_eqb cm_eqb_eq).
+  - apply (C09_acceptor_complete c_rt cm_set_index cm_src cm_src_set cm_eqb cm_eqb_eq cm_eqb_refl).
+    exact (tag_its_tagged raw 0).
+Qed.
+
 (* non-vacuity: a family with ties, an empty source and unordered times has a run, and it is accepted *)
 Example C09_nonvacuous :
   let its := tag_its 0 [[(5, 0); (5, 1); (9, 2)]; []; [(5, 0); (3, 1)]; [(7, 0)]] in
@@ -146,6 +169,7 @@ Print Assumptions C09_merge_sorted_if_sources_sorted.
 Print Assumptions C09_merge_total.
 Print Assumptions C09_acceptor_sound.
 Print Assumptions C09_acceptor_complete.
+Print Assumptions C09_acceptor_exact_on_generated.
 Print Assumptions C09_chain_concat.
 Print Assumptions C09_chain_indices.
 Print Assumptions C09_single_source_identity.
